@@ -80,11 +80,11 @@ func (g *rgen) injectNow(ind, d int, mode blockMode) {
 		g.vars = append(g.vars, rvar{name: a, ty: tU64, mutable: true}, rvar{name: b, ty: tU64, mutable: true})
 	case "int-compare":
 		n := g.fresh()
-		emit("var "+n+" uint64 = 0", "if int(x)-5 < int("+e()+") {", "\t"+n+" = 1", "}")
+		emit("var "+n+" uint64 = 0", "if int(x)-5 < int(hAdd(x, 3)) {", "\t"+n+" = 1", "}")
 		g.vars = append(g.vars, rvar{name: n, ty: tU64, mutable: true})
 	case "int-arith":
 		n := g.fresh()
-		emit(n + " := uint64(int(x) / (int(" + e() + ") | 1))")
+		emit(n + " := uint64(int(x) / (int(hAdd(x, 1)) | 1))")
 		g.vars = append(g.vars, rvar{name: n, ty: tU64})
 	case "slice3":
 		as := g.varsOf(tSl64, false)
